@@ -7,7 +7,7 @@ CONSTANTS
   IdxKeyMode = "abs"
   MaxDepth = 5
   MaxDepthDmg = 4
-  MaxDepthCollide = 3
+  MaxDepthCollide = 4
   Families = {"intact", "dmg", "collide"}
 SPECIFICATION Spec
 VIEW View
